@@ -194,12 +194,18 @@ func (p *Packet) unpackWithCompression(r io.Reader, threshold int) error {
 			return err
 		}
 		DataLength -= VarInt(n3)
+		if DataLength < 0 {
+			return fmt.Errorf("compressed packet error: declared size is smaller than the packet id")
+		}
 	} else {
 		n3, err := PacketID.ReadFrom(r)
 		if err != nil {
 			return err
 		}
 		DataLength = VarInt(int64(PacketLength) - n2 - n3)
+		if DataLength < 0 {
+			return fmt.Errorf("uncompressed packet error: length is %d", DataLength)
+		}
 	}
 	if cap(p.Data) < int(DataLength) {
 		p.Data = make([]byte, DataLength)
